@@ -104,3 +104,65 @@ fn c12_region_shorter_than_offset() {
     }
     std::mem::forget(d);
 }
+
+// ---------------------------------------------------------------------------
+// C12, tier B′ (bounded-exhaustive, native): sanitize_stack_copy against the statement, for EVERY element of
+//   words     : 17 boundary values (small ints around +-4096, stack / executable / data mapping edges, an
+//               address that aliases the executable mapping's pre-filter bucket, the sentinel itself)
+//   stacks    : every pair of those words, followed by 0, 1 or 7 extra bytes (trailing partial word)
+//   sp_offset : 0, 1, 7, 8, 9, 16, 17, 40
+//   mappings  : two orders of {stack rw-, text r-x, data rw- (adjacent to text)}
+// Enumeration, not sampling. The reference predicate below is written from the statement.
+// ---------------------------------------------------------------------------
+#[test]
+fn bprime_sanitize_small_domain() {
+    const S: usize = 0x7ffd_0000_0000; // stack mapping [S, S+0x2000)
+    const X: usize = 0x5555_0000_0000; // text  mapping [X, X+0x1000), executable
+    const D: usize = X + 0x1000;       // data  mapping [D, D+0x1000), not executable, same 2 MiB bucket as text
+    let defaced = 0x0defaced0defacedusize;
+    let words: [usize; 17] = [
+        0, 1, 4096, 4097, (-1isize) as usize, (-4096isize) as usize, (-4097isize) as usize,
+        S, S + 8, S + 0x2000 - 1, S + 0x2000, X, X + 0x1000 - 1, D, D + 0x1000, X + (2048usize << 21), defaced,
+    ];
+    let configs: [Vec<MappingInfo>; 2] = [
+        vec![mapping(S, 0x2000, MMPermissions::READ | MMPermissions::WRITE), mapping(X, 0x1000, MMPermissions::READ | MMPermissions::EXECUTE), mapping(D, 0x1000, MMPermissions::READ | MMPermissions::WRITE)],
+        vec![mapping(D, 0x1000, MMPermissions::READ | MMPermissions::WRITE), mapping(X, 0x1000, MMPermissions::READ | MMPermissions::EXECUTE), mapping(S, 0x2000, MMPermissions::READ | MMPermissions::WRITE)],
+    ];
+    let qualifies = |w: usize| -> bool {
+        let s = w as isize;
+        (-4096..=4096).contains(&s) || (S..S + 0x2000).contains(&w) || (X..X + 0x1000).contains(&w)
+    };
+    let mut n = 0usize;
+    for cfg in configs {
+        let d = bare_dumper(cfg);
+        for &w0 in &words {
+            for &w1 in &words {
+                for extra in [0usize, 1, 7] {
+                    for off in [0usize, 1, 7, 8, 9, 16, 17, 40] {
+                        let mut input = Vec::new();
+                        input.extend_from_slice(&w0.to_ne_bytes());
+                        input.extend_from_slice(&w1.to_ne_bytes());
+                        input.extend(std::iter::repeat(0xEEu8).take(extra));
+                        let mut out = input.clone();
+                        d.sanitize_stack_copy(&mut out, S + 0x100, off).expect("no failure mode");
+                        n += 1;
+                        assert_eq!(out.len(), input.len(), "length kept");
+                        let first = std::cmp::min((off + 7) & !7, input.len());
+                        assert!(out[..first].iter().all(|&b| b == 0), "bytes below the stack pointer are zero (w0={w0:#x} w1={w1:#x} extra={extra} off={off})");
+                        let mut k = first;
+                        while k + 8 <= input.len() {
+                            let w = usize::from_ne_bytes(input[k..k + 8].try_into().unwrap());
+                            let o = usize::from_ne_bytes(out[k..k + 8].try_into().unwrap());
+                            let want = if qualifies(w) { w } else { defaced };
+                            assert_eq!(o, want, "word {w:#x} at offset {k} (w0={w0:#x} w1={w1:#x} extra={extra} off={off})");
+                            k += 8;
+                        }
+                        assert!(out[k..].iter().all(|&b| b == 0), "trailing partial word is zero");
+                    }
+                }
+            }
+        }
+        std::mem::forget(d);
+    }
+    println!("BPRIME evaluations={n}");
+}
